@@ -234,7 +234,7 @@ pub struct Outcome {
     pub symbols_view: Vec<Option<String>>,
 }
 
-fn req_params(kind: &str, uri: &Uri, mal: u8, n: usize) -> Value {
+pub fn req_params(kind: &str, uri: &Uri, mal: u8, n: usize) -> Value {
     if mal == 2 {
         return Value::Null;
     }
